@@ -215,6 +215,27 @@ def depot_limits(ctx):
         ctx.decide(o, ok and call(S("can_depot_spawn_vehicle")) in dec and call(S("find_best_start_depot_for_spawning")) in fd.ret_slice()["atoms"],
                    "overflow fallback and result are decided on can_depot_spawn_vehicle; missing depots come from find_best_start_depot_for_spawning",
                    "the overflow fallback / depot choice is not decided on can_depot_spawn_vehicle")
+    o, fd = ctx.require_fn("R5.no-return-before-the-capacity-test", "T1", S("add_suitable_start_and_end_depot_to_path"),
+                           "no path of add_suitable_start_and_end_depot_to_path returns Ok before the given start depot has been tested for capacity")
+    if fd is not None:
+        cs = calls_to(fd, S("can_depot_spawn_vehicle")) + calls_to(fd, S("can_depot_spawn_vehicle_custom_usage"))
+        oks = [i for i in fd.body.instrs() if i.kind == "assign" and i.place.local == 0 and i.rv_kind() == "agg"
+               and i.rv.get("adt") == "core::result::Result" and i.rv.get("v") == "Ok"]
+        if not cs or not oks:
+            ctx.undecided(o, "capacity test or Ok results not recognised")
+        else:
+            # the outermost test that decides whether the capacity is asked (is_depot(first node) && ..)
+            # the test that directly decides whether the capacity is asked (is_depot(first node) && ..): the immediate control parents
+            parents = [b for b in fd.cfg.cdep().get(cs[0].bb, ()) if b in fd.switches]
+            gates = parents or [cs[0].bb]
+            early = oks
+            for g in gates:
+                e2 = [i for i in oks if not fd.cfg.dominates(g, i.bb)]
+                if len(e2) < len(early):
+                    early = e2
+            ctx.decide(o, not early, "%d Ok result(s), all after the capacity decision" % len(oks),
+                       "the Ok result at %s is returned before the start depot is tested: a path that brings a full start depot keeps it, and the depot "
+                       "hosts more vehicles than its capacity" % (early[0].line() if early else "?"), loc=early[0].line() if early else None)
     must_depend(ctx, "R5.spawn-uses-depot-choice", "T1", S("spawn_vehicle_for_path"), "ret",
                 [call(S("add_suitable_start_and_end_depot_to_path"))],
                 "spawn_vehicle_for_path takes its depots from add_suitable_start_and_end_depot_to_path")
